@@ -58,6 +58,8 @@ class ClusterPlay:
         self.votes = {}                         # block -> set of public vote names
         self.tmos = {}                          # view -> set of public timeout names
         self.ncommit = 0
+        if leader == 0:
+            leader = rng.choice(self.byz) if self.byz else None
         self.say(f"cfg {scheme} {n} cache={rng.choice([0, 0, 10])} agg={self.agg}")
         for i in self.nodes:
             self.say(f"node {i} rules={rules}" + (f" leader=fixed:{leader}" if leader else ""))
@@ -316,6 +318,54 @@ class ClusterPlay:
         for _ in range(rng.randrange(6, 14)):
             round_(self.nodes)
 
+    def byz_leader_run(self, rounds):
+        """the fixed leader is Byzantine: it builds chains of its own blocks from the honest replicas'
+        votes, shows some blocks to some replicas only, and now and then starts a new branch from an
+        older certified block or from genesis (after timeouts, with an aggregate QC made of the
+        honest replicas' own timeout messages where aggregate QCs are configured)"""
+        rng = self.rng
+        z = self.fixed
+        tip = "G"
+        for _ in range(rounds):
+            v = max(self.view.values())
+            cert = [b for b in self.certified_blocks() if self.blocks[b][0] < v] + ["G"]
+            fork = rng.random() < 0.25
+            parent = rng.choice(cert) if fork or tip not in cert else tip
+            if fork and rng.random() < 0.4:
+                parent = "G"
+            agg = None
+            if self.agg:
+                # without an aggregate QC a block must follow its certified parent in the very next view;
+                # otherwise the leader shows an aggregate QC made of the honest replicas' own timeouts and
+                # builds on the block of the highest QC they reported (or tries something else)
+                follows = parent in self.blocks and parent != "G" and self.blocks[parent][0] == v - 1
+                if v == 1:
+                    parent = "G"
+                elif fork or not follows:
+                    have = sorted(self.tmos.get(v - 1, set()))
+                    if len(have) >= self.q:
+                        agg = self.fresh("A")
+                        rng.shuffle(have)
+                        if not self.say(f"create-agg {z} {agg} {v - 1} " + " ".join(have[:self.q])).startswith("ok"):
+                            agg = None
+                    best = max((self.hqc[i] for i in self.nodes), key=lambda b: self.blocks.get(b, (0,))[0])
+                    parent = rng.choice([best, best, best, "G", rng.choice(cert)])
+            tg = list(self.nodes) if rng.random() < 0.6 else ([t for t in self.nodes if rng.random() < 0.6] or self.nodes[:1])
+            qn = self.qc_for(parent) if parent != "G" else "genesis"
+            if qn is None:
+                parent, qn = "G", "genesis"
+            x = self.fresh("L")
+            if self.say(f"block {x} parent={parent} view={v} proposer={z} qc={qn}") == "ok":
+                self.blocks[x] = (v, parent, z)
+                for t in tg:
+                    self.say(f"@{t} deliver propose {x} from={z}" + (f" agg={agg}" if agg else ""))
+                tip = x
+            # the views move on by timeout (always needed under the aggregate rule), or with the next proposal
+            if self.agg or rng.random() < 0.3:
+                self.timeouts()
+                for _ in range(2):
+                    self.pump_round()
+
     # ---- whole runs ----
     def run(self, steps, gap=None):
         rng = self.rng
@@ -393,6 +443,14 @@ class ClusterFam(Family):
                     p = ClusterPlay(m, rng, scheme, n, rules, 0, agg=rng.choice([0, 0, 1]), leader=ld)
                     lines = p.run(rng.randrange(3, 10), gap=True)
                     yield (f"cl-gap-{scheme}-{rules}-n{n}-{k}", lines)
+                    continue
+                if k % 6 == 1 and f >= 1:
+                    # a Byzantine fixed leader
+                    rules = rng.choice(RULES)
+                    p = ClusterPlay(m, rng, scheme, n, rules, f, agg=rng.choice([0, 0, 1]), leader=0)
+                    p.byz_leader_run(rng.randrange(6, 16))
+                    lines = p.run(rng.randrange(0, 5), gap=False)
+                    yield (f"cl-byzlead-{scheme}-{rules}-n{n}-{k}", lines)
                     continue
                 p = ClusterPlay(m, rng, scheme, n, rules, nbyz, agg=rng.choice([0, 0, 1]), leader=None)
                 steps = rng.randrange(8, 30 if scheme != "bls12" else 14)
